@@ -168,3 +168,50 @@ Qed.
 
 Lemma ns_start_stop every off t : ns_stop every off t = ns_start every off t + every.
 Proof. unfold ns_stop, ns_start. lia. Qed.
+
+(** Calendar-month windows: [month_stop_gen] satisfies the window hypotheses for ANY pair
+    (month_of, month_start) such that month starts are strictly increasing and every instant
+    lies in its month.  (That the concrete Gregorian pair of Model/C20.v has these two
+    properties is not proved here; it is tested against flux by the correspondence check.) *)
+Section MonthWindow.
+Variables month_of month_start : Z -> Z.
+Variable n : Z.
+Hypothesis Hn : 0 < n.
+Hypothesis Hs : forall a b, a < b -> month_start a < month_start b.
+Hypothesis Hb : forall t, month_start (month_of t) <= t < month_start (month_of t + 1).
+
+Lemma month_start_le a b : a <= b -> month_start a <= month_start b.
+Proof. intro H. destruct (Z.eq_dec a b) as [->|Hne]; [lia|]. specialize (Hs a b). lia. Qed.
+
+Lemma month_of_lt u M : u < month_start M -> month_of u < M.
+Proof.
+  intro H. destruct (Z_lt_ge_dec (month_of u) M) as [Hl|Hg]; [exact Hl|].
+  pose proof (month_start_le M (month_of u) ltac:(lia)). pose proof (Hb u). lia.
+Qed.
+
+Lemma month_of_mono t u : t <= u -> month_of t <= month_of u.
+Proof.
+  intro H. destruct (Z_le_gt_dec (month_of t) (month_of u)) as [Hl|Hg]; [exact Hl|].
+  pose proof (month_start_le (month_of u + 1) (month_of t) ltac:(lia)).
+  pose proof (Hb t). pose proof (Hb u). lia.
+Qed.
+
+Lemma month_stop_gt t : t < month_stop_gen month_of month_start n t.
+Proof.
+  unfold month_stop_gen. pose proof (Hb t).
+  pose proof (Z.mod_pos_bound (month_of t) n Hn). pose proof (Z.div_mod (month_of t) n).
+  pose proof (month_start_le (month_of t + 1) ((month_of t / n + 1) * n) ltac:(nia)). lia.
+Qed.
+
+Lemma month_stop_same t u :
+  t <= u < month_stop_gen month_of month_start n t ->
+  month_stop_gen month_of month_start n u = month_stop_gen month_of month_start n t.
+Proof.
+  unfold month_stop_gen. intros [Htu Hu].
+  pose proof (month_of_mono t u Htu). pose proof (month_of_lt u _ Hu).
+  pose proof (Z.mod_pos_bound (month_of t) n Hn). pose proof (Z.div_mod (month_of t) n).
+  assert (E : month_of u / n = month_of t / n).
+  { symmetry. apply Z.div_unique with (r := month_of u - n * (month_of t / n)); [|lia]. left. nia. }
+  rewrite E. reflexivity.
+Qed.
+End MonthWindow.
